@@ -108,8 +108,11 @@ static unsigned int assemble_imm(struct instr *instruc, unsigned char ptr[]) {
   // no need to zero pad if the immediate operand has been reduced
   if (instruc->reduced_imm || instruc->keyword.is_byte)
     return ptr_pos;
-  // get the register size for the first operand
+  // get the register size for the first operand (a memory operand is sized by
+  // its keyword, not by the registers used in the address)
   unsigned int opd0_mode = instruc->opd[0].reg & MODE_MASK;
+  if (instruc->mem_disp && instruc->mem_index == FIRST_OPERAND)
+    opd0_mode = instruc->keyword.is_word ? reg16 : reg32;
   // zero padding is required rarely.
   bool zero_pad =
       ((type != CONTROL_FLOW &&       // it must not be CONTROL_FLOW
